@@ -185,6 +185,14 @@ def f_body_empty(m):
     m["body"] = b""
 
 
+def f_body_oneblank(m):
+    m["body"] = b"\r\n"  # the body is a single empty line (not the same as no body at all)
+
+
+def f_body_twoblank(m):
+    m["body"] = b"\r\n\r\n"
+
+
 def f_body_nofinalnl(m):
     m["body"] = b"last line without newline"
 
